@@ -81,6 +81,17 @@ class Cpt(ImmittanceMixin):
 
         self.relnodes = self.nodes
 
+        try:
+            self._init_args(name, string, opts_string, keyword, args)
+        except Exception:
+            # Detach the half-constructed component from its nodes.
+            if cct is not None:
+                for node in self.nodes:
+                    node.remove(self)
+            raise
+
+    def _init_args(self, name, string, opts_string, keyword, args):
+
         # Handle names such as a.R1 or a.b.R1.  The namespace is
         # a for the first example and a.b for the second.
         # The relative name (relname) in both cases is R1.
